@@ -612,7 +612,7 @@ fn predict_lru(
         }
     };
     let u = cfg.kind == Kind::U;
-    if u && matches!(op, Op::Ins(..) | Op::Get(_) | Op::Con(_) | Op::Inv(_)) {
+    if u && matches!(op, Op::Ins(..) | Op::Get(_) | Op::Con(_) | Op::Inv(_) | Op::InvDP(_)) {
         purge(&mut r, m);
         evict_excess(&mut r);
     }
@@ -669,7 +669,7 @@ fn predict_lru(
                 r.push(e);
             }
         }
-        Op::Inv(k) => r.retain(|x| x.0 != k),
+        Op::Inv(k) | Op::InvDP(k) => r.retain(|x| x.0 != k),
         Op::InvIf(p) => {
             // predicate sees the stored value: weight field of the value
             let pre_w: BTreeMap<u8, u32> = pre.entries.iter().map(|e| (e.key as u8, e.weight)).collect();
@@ -1110,7 +1110,7 @@ pub fn step(cfg: &Cfg, sut: &mut Sut, m: &mut Model, pre: &Snapshot, op: Op, has
                 }
             }
         }
-        Op::Inv(k) => {
+        Op::Inv(k) | Op::InvDP(k) => {
             m.keys[k as usize].has = false;
             m.inv_calls += 1;
             if u {
@@ -1387,7 +1387,7 @@ pub fn step(cfg: &Cfg, sut: &mut Sut, m: &mut Model, pre: &Snapshot, op: Op, has
 
     // ---- C11: invalidated and expired entries are released once maintenance has run
     // (U: the calls that begin with the purge; S: the previous call was sync()).
-    let purging_call = if u { matches!(op, Op::Ins(..) | Op::Get(_) | Op::Con(_) | Op::Inv(_) | Op::InsWP(_)) } else { m.maintained };
+    let purging_call = if u { matches!(op, Op::Ins(..) | Op::Get(_) | Op::Con(_) | Op::Inv(_) | Op::InvDP(_) | Op::InsWP(_)) } else { m.maintained };
     // one purge pass handles a bounded batch (100 / 500 nodes per queue): the clause
     // speaks about caches smaller than one batch
     let within_one_batch = {
